@@ -55,6 +55,9 @@ type Options struct {
 
 var ErrNoConfigFound = errors.New("grapghql: no configuration found")
 
+// ErrBodyNotObject is returned for a mutation whose request body is not a JSON object
+var ErrBodyNotObject = errors.New("graphql: the request body is not a JSON object")
+
 // GetOptions extracts the Options config from the backend's extra config
 func GetOptions(cfg config.ExtraConfig) (*Options, error) {
 	tmp, ok := cfg[Namespace]
@@ -195,6 +198,10 @@ func (e *Extractor) fromBody(r io.Reader) (*GraphQLRequest, error) {
 
 	if err := json.Unmarshal(b, &vars); err != nil {
 		return nil, err
+	}
+	if vars == nil {
+		// the JSON literal null decodes into a nil map without an error
+		return nil, ErrBodyNotObject
 	}
 
 	for k, v := range e.cfg.Variables {
